@@ -522,7 +522,11 @@ def _process_internal_events_without_default_matchers(
         )
         if (
             source_flow_state is not None
-            and source_flow_state.flow_id != flow_id
+            and (
+                source_flow_state.flow_id != flow_id
+                # (an activated flow is restarted by its own ended instance)
+                or not event.arguments.get("activated", None)
+            )
             and _is_done_flow(source_flow_state)
         ):
             # The flow that wanted to start this flow has ended in the meantime
